@@ -160,7 +160,7 @@ def run(ctx):
     def apply_all(hin, abs_e, envs, sig, extra_feats=(), aliases=('A',), text=None, remake=None):
         is_pred = bool(getattr(hin, 'is_predicate', False))
         cond = hin.condition if is_pred else hin
-        if S.power_bomb(cond):
+        if S.power_bomb(cond, astronomical_only=True):
             ctx.skip('power-too-large-to-fold')
             return
         calls = [('simplify', (hin,))]
@@ -305,6 +305,28 @@ def run(ctx):
                 ctx.count('operand_kind_pairs_accepted')
                 apply_all(o[1], e, grid_envs, f'kinds:{op}|{a[0]}:{a[1] if a[0] == "lit" else ""}|{b[0]}:{b[1] if b[0] == "lit" else ""}',
                           extra_feats=('shape:operand-kinds',), remake=parse_remake('expression'))
+
+    # B3. constant powers: every base x exponent pair over boundary values (zero, one, signs, fractions, large)
+    bases = ('0', '0.0', '1', '2', '10', '0.5', '1234567890123456789')
+    exps = ('0', '1', '2', '0.5', '7', '100', '5000', '20000', '1e3')
+    for sa in (False, True):
+        for a in bases:
+            for sb in (False, True):
+                for b in exps:
+                    cellno += 1
+                    if not ctx.mine(cellno):
+                        continue
+                    ea = A.neg(A.num(a)) if sa else A.num(a)
+                    eb = A.neg(A.num(b)) if sb else A.num(b)
+                    pw = ('bin', '**', ea, eb)
+                    for e in (pw, ('bin', '>', A.fld('x'), pw), ('bin', '**', ('bin', '-', A.fld('x'), A.fld('x')), eb)):
+                        o = hplapi.outcome(PE.parse, A.render_expr(e))
+                        if o[0] != 'ok':
+                            ctx.skip('power-grid-rejected:' + type(o[1]).__name__)
+                            continue
+                        ctx.count('constant_powers')
+                        apply_all(o[1], e, grid_envs, f'pow:{sa}{a}|{sb}{b}|{e[1]}', extra_feats=('shape:constant-power',),
+                                  remake=parse_remake('expression'))
 
     # C. random typed expressions and predicates
     for n in range(ctx.share(B['random'])):
